@@ -126,15 +126,18 @@ func (f *gateFam) play(l *Line, out *rec) error {
 	return nil
 }
 
-func gateEntry(op gateOp) map[string]interface{} {
-	w := &lvlW{}
-	hooks := 0
-	lg := zerolog.New(w).Level(zerolog.Level(op.LL)).Hook(countHook{&hooks})
-	zerolog.SetGlobalLevel(zerolog.Level(op.GL))
+type recSampler struct {
+	admit bool
+	calls *int
+}
+
+func (s recSampler) Sample(zerolog.Level) bool { *s.calls++; return s.admit }
+
+// gateRun sends one event through the entry point on logger lg (the package-level logger is lg too).
+func gateRun(op gateOp, lg zerolog.Logger) (panicked bool, pmsg string) {
 	old := zlog.Logger
 	zlog.Logger = lg
 	defer func() { zlog.Logger = old }()
-	panicked, pmsg := false, ""
 	func() {
 		defer func() {
 			if x := recover(); x != nil {
@@ -199,12 +202,27 @@ func gateEntry(op gateOp) map[string]interface{} {
 			panic("unknown entry " + x)
 		}
 	}()
+	return
+}
+
+func gateEntry(op gateOp) map[string]interface{} {
+	w := &lvlW{}
+	hooks := 0
+	lg := zerolog.New(w).Level(zerolog.Level(op.LL)).Hook(countHook{&hooks})
+	zerolog.SetGlobalLevel(zerolog.Level(op.GL))
+	panicked, pmsg := gateRun(op, lg)
 	wl := -999
 	if len(w.lvls) > 0 {
 		wl = w.lvls[0]
 	}
+	// the same event with a recording sampler attached: once admitting, once rejecting
+	wa, wr := &lvlW{}, &lvlW{}
+	ca, cr := 0, 0
+	gateRun(op, zerolog.New(wa).Level(zerolog.Level(op.LL)).Sample(recSampler{true, &ca}))
+	gateRun(op, zerolog.New(wr).Level(zerolog.Level(op.LL)).Sample(recSampler{false, &cr}))
 	return map[string]interface{}{"a": "Entry", "entry": op.Entry, "ll": op.LL, "gl": op.GL, "written": w.n > 0, "nwrites": w.n, "wlevel": wl,
-		"panicked": panicked, "pmsg": pmsg, "hookruns": hooks}
+		"panicked": panicked, "pmsg": pmsg, "hookruns": hooks,
+		"scallsadmit": ca, "writtenadmit": wa.n, "scallsreject": cr, "writtenreject": wr.n}
 }
 
 type recObj struct{ calls *int }
